@@ -3,8 +3,8 @@
 cd "$(dirname "$0")/.."
 ids=()
 for P in "$@"; do
-  n=3
-  for m in /tmp/wt2/$P/mutants/m*; do
+  n=${NSTART:-3}
+  for m in ${WTROOT:-/tmp/wt2}/$P/mutants/m*; do
     [ -f "$m/patch.diff" ] || continue
     id="$P-m$n"; n=$((n+1))
     mkdir -p seeded/$id
